@@ -217,10 +217,17 @@ func VerifC09Abort() {
 	if scenario == 2 {
 		return
 	}
-	bc2, _ := Compile([]byte(`return 6 * 7`), CompilerOptions{})
+	// (the later script calls script functions through the same kind of Go
+	// callback, so child VMs that went back to the process-wide pool while
+	// aborted are observed too)
+	later := `return 6 * 7`
+	if scenario != 0 {
+		later = `global cb; f := func() { return 40 }; h := func() { return 1 }; return cb(f) + cb(h) + 1`
+	}
+	bc2, _ := Compile([]byte(later), CompilerOptions{})
 	var v Object
 	var err2 error
-	ok := verifrt.Bounded(verifC09Steps, func() { v, err2 = root.SetBytecode(bc2).Run(nil) }, root.Abort)
+	ok := verifrt.Bounded(verifC09Steps, func() { v, err2 = root.SetBytecode(bc2).Run(g) }, root.Abort)
 	verifrt.Assert(ok && err2 == nil && v != nil && v.Equal(Int(42)), "aborted-vm-runs-later-scripts")
 	verifrt.Reached("end")
 }
